@@ -393,8 +393,12 @@ def choose_blocks(cfg, conf, rng):
     elif cls == "tiny_last":
         cand = [k for k in (2, 3, 4, 5, 6, 8, 10, 26, 28, 50) if fit(k)] or [2]
         k = rng.choice(cand)
-        ov = ov_last(k)
         which = rng.choice(["1", "ov-1", "ov", "ov+1", "ov+49", "ov+50", "ov+51", "rand"])
+        if cfg.get("_tiny"):             # directed configurations name the boundary themselves
+            k, which = cfg["_tiny"]
+            if not fit(k):
+                k = max([c for c in cand if c <= k] or [2])
+        ov = ov_last(k)
         r = {"1": 1, "ov-1": ov - 1, "ov": ov, "ov+1": ov + 1, "ov+49": ov + 49, "ov+50": ov + 50,
              "ov+51": ov + 51, "rand": rng.randint(1, ov + 52)}[which]
         r = max(1, min(r, bpg - 1))
@@ -440,6 +444,17 @@ def finish_cfg(cfg, conf, rng):
     cfg["blocks"] = blocks
     cfg["boundary"] = label
     w = Want(cfg, conf, blocks)
+    if cfg.get("raid") == "sEDGE":
+        # the stride that shifts the bitmaps of group 1 onto the very last block of the group
+        # (placement without flex_bg: start = first block + inode table, shifted by stride * group
+        # modulo the room behind it)
+        try:
+            pl = w.plan()
+            # group 1 always carries a backup: its first free block lies behind superblock,
+            # descriptors and reserved GDT; room behind the inode table = R, the edge is R - 1
+            cfg["raid"] = "s%d" % max(2, pl.bpg - (1 + pl.desc_blocks + pl.rsv_gdt) - pl.itb - 1)
+        except (mkgeom.Refused, AttributeError):
+            cfg["raid"] = "s7"
     # keep the inode count (hence e2fsck / oracle time) bounded on big devices
     if w.inodes_param > MAX_INODES:
         ratio_needed = blocks * cfg["b"] // MAX_INODES
@@ -1217,6 +1232,32 @@ def sample_configs(seed, n, conf, tag="cfg"):
                      "pairwise_phase_configs": pair_phase, "random_fill_configs": len(configs) - pair_phase}
 
 
+def directed_configs(seed, conf):
+    """Boundary motifs that the covering sampler only meets by luck; run in every tier.
+    (a) sparse_super2: the short last group carries the second backup, so the 'keep the last group?'
+        rule has to count superblock + descriptors + reserved GDT - sizes right below / at the rule;
+    (b) RAID stride without flex_bg: a stride that puts the shifted bitmap start on the last block
+        of a group."""
+    rng = run.rng_for(seed, "C07-directed")
+    out = []
+    for b, ino, isz, k in ((1024, "i65536", 256, 3), (1024, "i65536", 256, 5), (1024, None, None, 4),
+                           (4096, None, None, 50), (2048, "i16384", 256, 6)):
+        for which in ("ov-1", "ov+49", "ov+50"):
+            cfg = default_cfg()
+            cfg.update({"t": "ext4", "b": b, "size": "tiny_last", "ino": ino, "I": isz,
+                        "f:sparse_super2": "on", "_tiny": (k, which)})
+            out.append(finish_cfg(cfg, conf, rng))
+    for t in ("ext2", "ext3"):
+        for b, g in ((1024, None), (1024, 2048), (4096, 2048), (2048, 4096), (4096, None)):
+            cfg = default_cfg()
+            cfg.update({"t": t, "b": b, "g": g, "size": "mid", "raid": "sEDGE"})
+            out.append(finish_cfg(cfg, conf, rng))
+    cfg = default_cfg()
+    cfg.update({"t": "ext4", "b": 1024, "g": 1024, "size": "mid", "raid": "sEDGE", "f:flex_bg": "off"})
+    out.append(finish_cfg(cfg, conf, rng))
+    return [c for c in out if c]
+
+
 def small_configs(seed, n, conf, tag, with_tree_every=3):
     """configurations on small devices for the -n and reproducibility streams"""
     rng = run.rng_for(seed, "C07-sampler", tag)
@@ -1323,6 +1364,9 @@ def main(tier, seed, replay=None, scale=1.0):
             nn = max(4, int(nn * scale))
             nr = max(4, int(nr * scale))
             configs, stats = sample_configs(seed, ncfg, conf)
+            dcfg = directed_configs(seed, conf)
+            stats["directed_configs"] = len(dcfg)
+            configs = configs + dcfg
             items = [("c", i, c, ctx) for i, c in enumerate(configs)]
             items += [("n", i, c, ctx) for i, c in enumerate(small_configs(seed, nn, conf, "noaction"))]
             items += [("r", i, c, ctx) for i, c in enumerate(small_configs(seed, nr, conf, "repro", 2))]
